@@ -641,6 +641,28 @@ func (o *Oracle) Step(idx int, line, out string) {
 		return
 	}
 	all := i.loc && i.int
+	// Keys are opaque strings for the reference map (it works on the key tokens: the token encoding is a
+	// prefix code, so "is a prefix of" is the same on tokens and on keys). The file-tree backend stores key k in
+	// the file <base>/k: the property exempts key sets that are not prefix-free at path-segment boundaries, and a
+	// name that is not a clean relative path (empty, `.` or `..` segment) names no file of its own — such a key
+	// must be refused, never stored under another name.
+	switch f[0] {
+	case "get", "exists", "put", "putnew", "del", "setabs", "setrel", "mksecret", "mkcrown", "insert", "reput":
+		if len(f) < 3 {
+			return
+		}
+		unclean := o.Backend == "f" && !FSCleanKey(f[2])
+		if unclean {
+			if out != "badkey" {
+				o.add(idx, "C02:fstree-takes-unclean-key:"+f[0], fmt.Sprintf("key %s is not a clean relative path (it names the same file as another key, or none), %s answered %s instead of refusing it", f[2], f[0], out))
+			}
+			return
+		}
+		if out == "badkey" {
+			o.add(idx, "C02:key-refused:"+f[0]+":"+o.Backend, fmt.Sprintf("key %s refused", f[2]))
+			return
+		}
+	}
 	// An interface that rewrites the expiry on every save: metadata and visibility after its writes are
 	// left to the correspondence with the model; the oracle only follows the outputs.
 	switch f[0] {
@@ -677,7 +699,11 @@ func (o *Oracle) Step(idx int, line, out string) {
 		default:
 			if f[0] == "exists" {
 				if out != "true" {
-					o.add(idx, "C02:visible-record-missing:exists", fmt.Sprintf("key %s is stored and valid, exists answered %s", key, out))
+					sig := "C02:visible-record-missing:exists"
+					if ss := staleSig(i, key); ss != "" {
+						sig = ss // written behind this interface's cache / pending write set (recorded finding), as for get
+					}
+					o.add(idx, sig, fmt.Sprintf("key %s is stored and valid, exists answered %s", key, out))
 				}
 				return
 			}
@@ -853,6 +879,50 @@ func (o *Oracle) storeUnjudged(key string) {
 }
 
 func (o *Oracle) anyUnjudged() bool { return len(o.unjudged) > 0 }
+
+// FSCleanKey: the key (given as a protocol token) is a clean relative path: no empty, `.` or `..` segment.
+func FSCleanKey(tok string) bool {
+	k, ok := DecKey(tok)
+	if !ok {
+		return false
+	}
+	for _, seg := range strings.Split(k, "/") {
+		if seg == "" || seg == "." || seg == ".." {
+			return false
+		}
+	}
+	return true
+}
+
+// PQOut is the parsed answer of a `pq` op.
+type PQOut struct {
+	Cap     int
+	Parked  bool
+	Reflag  string
+	Arrived []string // record tokens in order of arrival
+	Err     string
+}
+
+// ParsePQ parses `ok cap=<c> parked=<0|1> reflag=<r> n=<n> <tok>… err=<e>`.
+func ParsePQ(out string) (PQOut, bool) {
+	pf := strings.Fields(out)
+	var r PQOut
+	n := -1
+	if len(pf) < 6 || pf[0] != "ok" {
+		return r, false
+	}
+	r.Cap = -1
+	fmt.Sscanf(pf[1], "cap=%d", &r.Cap)
+	fmt.Sscanf(pf[4], "n=%d", &n)
+	if r.Cap < 0 || n < 0 || len(pf) != 6+n || !strings.HasPrefix(pf[len(pf)-1], "err=") || !strings.HasPrefix(pf[3], "reflag=") {
+		return r, false
+	}
+	r.Parked = pf[2] == "parked=1"
+	r.Reflag = strings.TrimPrefix(pf[3], "reflag=")
+	r.Arrived = pf[5 : 5+n]
+	r.Err = strings.TrimPrefix(pf[len(pf)-1], "err=")
+	return r, true
+}
 
 // ParseListOut parses `ok <n> <tok>… [err=…]`.
 func ParseListOut(out string) (n int, toks []string, tail string, ok bool) { return parseListOut(out) }
